@@ -41,6 +41,7 @@ SLICES = {
                 "em": {"text", "strong", "code_inline"}, "strong": {"text", "em", "link"}, "link": {"text", "em", "code_inline", "image"}}, 5, 6),
     "lists": ({"root": {"para", "ordered_list", "bullet_list", "fence", "html_block", "h2"}, "ordered_list": {"list_item"}, "bullet_list": {"list_item"},
                "list_item": {"para", "fence", "bullet_list", "blockquote", "h3", "hr"}, "blockquote": {"para", "ordered_list", "hr", "h1"}}, 4, 5),
+    "headings": ({"root": {"h1", "h2", "h3", "h4", "para"}}, 5, 6),
     "misc": ({"root": {"ipara", "dl", "para"}, "ipara": {"text", "s", "math_inline", "html_inline", "code_inline"}, "s": {"text", "em"}, "em": {"text"},
               "dl": {"dt", "dd"}, "dt": {"text", "em"}, "dd": {"para", "bullet_list"}, "bullet_list": {"list_item"}, "list_item": {"para"}}, 5, 6),
 }
@@ -287,7 +288,7 @@ def gen_doc(rnd, depth=0):
 
 def _vjob(job):
     tid, name, text, cm, front = job
-    cfg = {"commonmark_only": True} if cm else {"enable_extensions": EXT + (["attrs_block", "attrs_inline", "colon_fence"] if front == "c03" else [])}
+    cfg = {"commonmark_only": True} if cm else {"enable_extensions": EXT + (["attrs_block", "attrs_inline", "colon_fence", "html_admonition", "html_image"] if front == "c03" else [])}
     try:
         ev, why = R.events_of(text, cfg)
     except Exception as e:  # noqa: BLE001
@@ -306,7 +307,7 @@ def _vjob(job):
     except Exception as e:  # noqa: BLE001
         return {"id": tid, "error": f"{type(e).__name__}: {e}"}
     return {"id": tid, "ev": [] if c03only else ev, "c03only": c03only, "obs": {"nodes": nodes, "par": par},
-            "obs2": {"nodes": n2, "par": p2}, "ids": ids}
+            "obs2": {"nodes": n2, "par": p2}, "ids": ids, "dups": R.dup_nodes(doc) + R.dup_nodes(doc2)}
 
 
 def _sphinx_batch(job):
